@@ -134,6 +134,24 @@ def run_case(seed, i, tier):
     tried = []
     for form in forms:
         name, data, descr = stored_form(rng, form, base, content, mtime)
+        this_ref = ref
+        if form == "tar" and kind == "text" and rng.random() < 0.4:
+            # two log members in one archive == the two plain files named in member order
+            p2 = world.TextLogParams(n_msgs=rng.randint(1, 6), src_letter=b"Q", cont_p=0.2, t0=(msgs[0].instant if msgs else 946684800_000_000_000))
+            c2, _, _ = world.gen_text_log(rng, p2)
+            pair = [(base, content), ("other.log", c2)]
+            if rng.random() < 0.5:
+                pair.reverse()
+            fmt = rng.choice(("ustar", "gnu", "pax"))
+            data = world.to_tar([(rng.choice(("", "d/")) + n_, c_, mtime) for (n_, c_) in pair], fmt)
+            name, descr = "c_arch.tar", {"kind": "tar", "format": fmt, "members": 2, "member_path": "two_log_members", "order": [n_ for (n_, _) in pair]}
+            ref2_scn = core.Scenario([core.FileSpec(n_, c_, mtime) for (n_, c_) in pair], opts + [n_ for (n_, _) in pair], None, "UTC")
+            this_ref = core.execute(ref2_scn, plan)
+            cr.runs += 1
+            cr.probes["tar_with_two_log_members"] += 1
+            if mergecheck.evaluate(this_ref, None, check_protocol=False):
+                this_ref = ref
+                name, data, descr = stored_form(rng, form, base, content, mtime)
         scn = core.Scenario([core.FileSpec(name, data, mtime)], opts + [name], None, "UTC")
         res = core.execute(scn, plan)
         tr = res.trace
@@ -150,11 +168,11 @@ def run_case(seed, i, tier):
         cr.nontrivial_keys.append(core.derive(0, scn.digest()))
         tried.append(descr)
         vs = mergecheck.evaluate(res, None, check_protocol=False)
-        if not vs and res.stdout != ref.stdout:
-            vs.append(("stored_form_differs_from_plain", mergecheck.show_diff(res.stdout, ref.stdout)))
+        if not vs and res.stdout != this_ref.stdout:
+            vs.append(("stored_form_differs_from_plain", mergecheck.show_diff(res.stdout, this_ref.stdout)))
         for (cls, detail) in vs:
             rp = {"scenario": scn.to_json(), "plan": plan.as_replay(tr).to_json(), "class": cls,
-                  "reference_stdout_b64": base64.b64encode(ref.stdout).decode()}
+                  "reference_stdout_b64": base64.b64encode(this_ref.stdout).decode()}
             cr.violations.append(Violation(cls, "kind=%s form=%s opts=%s: %s" % (kind, descr, opts, detail), rp))
         if vs:
             break
